@@ -63,9 +63,12 @@ def _main(tier, seed, extra):
         # the maintenance of the index (build, insert, remove, update, _reset, invalidate, __init__ and their helpers) is COMPILED from index.py into
         # state-passing Gallina and proved the model's maintenance through IndexSem.abs (proofs/IndexGenP.v)
         run_translator("py2coq_index.py", "tinyflux/index.py", "gen/IndexGen.v", refused)
+    import indextie
+    itie = {}
     return dbtie.db_check("C06", tier, seed, PROFILE, 800, 4000, "Prop_C06",
                           "user callables and re are an environment the theorems quantify over; the tie instantiates them with the twin table",
-                          extra_cases=extra, pre=regen, extra_cov={"translator_index_search": {"source": "tinyflux/index.py: IndexResult set algebra, Index._search_helper, Index._search_timestamps -> coq/gen/SearchGen.v (regenerated on this run)", "refused": refused, "equivalence_theorem": "gen_search_helper_eq (C06_source_search_valid_is_rebuilt)"},
+                          extra_cases=extra, pre=regen, direct=lambda ck, tf: itie.update(indextie.check(ck, tf, refused) or {}),
+                          extra_cov={"translator_index_maintenance_validation": itie, "translator_index_search": {"source": "tinyflux/index.py: IndexResult set algebra, Index._search_helper, Index._search_timestamps -> coq/gen/SearchGen.v (regenerated on this run)", "refused": refused, "equivalence_theorem": "gen_search_helper_eq (C06_source_search_valid_is_rebuilt)"},
                                      "translator_index_maintenance": {"source": "tinyflux/index.py: Index.__init__, _reset, invalidate, _insert_time / _measurements / _tags / _fields, insert, build, _remove_timestamps / _measurements / _tags / _fields, remove, _update_timestamps / _measurements / _tags / _fields, update -> coq/gen/IndexGen.v (compiled on this run: imperative Python to state-passing Gallina; fail-closed on reads of keys not known present, mutation through aliases, changes to a dict under iteration)", "refused": refused,
                                                                       "equivalence_theorem": "gen_reset_eq, gen_invalidate_eq, gen_init_eq, gen_insert_one, gen_build_eqv, gen_remove_eq, gen_update_eq, gen_remove_update_eq, Rep_eqv (C06_source_index_*)"},
                                      "translator_insert": {"source": "tinyflux/database.py: TinyFlux._insert_helper -> coq/gen/InsertGen.v (regenerated on this run)", "refused": refused,
